@@ -19,6 +19,9 @@ type Clause struct {
 	// WhereDefined: a check that applies only at the returns where every local it names is in scope
 	// (it must apply at one return at least)
 	WhereDefined bool
+	// Must: a callpre that has to apply at one call site at least (the call carries the property; if a
+	// refactoring moves it out of this function the contract no longer constrains it)
+	Must bool
 	sites        int
 	Assumed      bool // summary: assumed by callers, not verified in the body
 	Loc          string // assertat: substring of the source line
@@ -63,6 +66,7 @@ type FuncContract struct {
 	Strict     bool
 	MathInt    bool
 	MayPanic   bool
+	HoldsLock  bool // opt-out of the lock discipline: the function is entered or left with one of its own locks held
 	CloseOnce  bool
 	NoBody     bool
 	Loops      map[int]*LoopContract
@@ -124,7 +128,7 @@ func newContracts() *Contracts {
 	return &Contracts{Funcs: map[string]*FuncContract{}, Specs: map[string]*SpecFunc{}, Decls: map[string][]string{}}
 }
 
-var keywordRe = regexp.MustCompile(`^(func|requires|ensures_on_panic|ensures|summary|assertat|checkif|check|functional|closeonce|callpreif|callpre|dyncall|ghost|atunlock|sendpre|nomonitor|unknowncalls|literals|modifies|pure|trusted|strict|mathint|maypanic|nobody|loop|param|spec|axiom|lemma|monitor|allocbound|recdecreases|decl)\b`)
+var keywordRe = regexp.MustCompile(`^(func|requires|ensures_on_panic|ensures|summary|assertat|checkif|check|functional|closeonce|callpreif|callpremust|callpre|dyncall|ghost|atunlock|sendpre|nomonitor|unknowncalls|literals|modifies|pure|trusted|strict|mathint|maypanic|nobody|loop|param|spec|axiom|lemma|monitor|allocbound|recdecreases|holdslock|decl)\b`)
 
 // preprocess rewrites `A ==> B` into implies(A, B) (lowest precedence within its paren group)
 // and `A <==> B` into iff(A, B).
@@ -320,7 +324,7 @@ func (cs *Contracts) parseContractFile(path string, content []byte, pkgName stri
 					cur.Modifies = append(cur.Modifies, c)
 				}
 			}
-		case "callpre", "callpreif":
+		case "callpre", "callpreif", "callpremust":
 			if cur == nil {
 				fail(it.line, "callpre outside func")
 				continue
@@ -334,6 +338,7 @@ func (cs *Contracts) parseContractFile(path string, content []byte, pkgName stri
 			if c := mk(body, it.line); c != nil {
 				// callpreif: applies only at the call sites where every local it names is in scope (one at least)
 				c.WhereDefined = kw == "callpreif"
+				c.Must = kw == "callpremust"
 				if cur.CallPre == nil {
 					cur.CallPre = map[string][]*Clause{}
 				}
@@ -459,6 +464,10 @@ func (cs *Contracts) parseContractFile(path string, content []byte, pkgName stri
 		case "maypanic":
 			if cur != nil {
 				cur.MayPanic = true
+			}
+		case "holdslock":
+			if cur != nil {
+				cur.HoldsLock = true
 			}
 		case "nobody":
 			if cur != nil {
